@@ -18,7 +18,7 @@ import common as C
 import fullrun as FR
 
 STATIC = ["Model/Sev.vo"]
-EXTRA_PROPS = ["C01b"]
+EXTRA_PROPS = ["C01b", "C01c"]
 GRID = 40000
 
 
